@@ -1,12 +1,12 @@
 SPECIFICATION Spec
 CONSTANTS
-  Actors = {0, 1, 2}
-  Menus <- Menus3NoDel
+  Actors = {0, 1}
+  Menus <- MenusNoPack
   Inits <- AllInits
   PruneBeforeWrite = FALSE
   LooseBeforePacked = FALSE
   StaleSnapshot = FALSE
-  StaleShortcut = FALSE
+  StaleShortcut = TRUE
 INVARIANT VisIsAbs
 INVARIANT CasSound
 INVARIANT ShortcutSound
